@@ -22,7 +22,7 @@ RULE = (
     "carries at least one non-dimension coordinate"
 )
 SPACE = {
-    "quick": "all subsets of <= 3 of 9 pool coordinates x {all, none, only centre, all but centre} dimension coordinates x 10 (op, shift) paths x carry/none/relabelled x keep_coords T/F",
+    "quick": "all subsets of <= 3 of 9 pool coordinates x {all, none, only centre, all but centre} dimension coordinates x 10 (op, shift) paths x carry/none/relabelled x keep_coords T/F; each path also as the first valid call of a Grid after two calls with misfitting inputs; subsets of <= 2 on a single-cell axis (length-0 inner position) and with an empty untouched dimension",
     "thorough": "subsets of <= 4",
 }
 BOUNDS = {"quick": {"k": 3}, "thorough": {"k": 4}}
@@ -32,13 +32,22 @@ ASSUMPTIONS = [
 n = 3
 POSDIM = {"center": "xc", "left": "xg", "outer": "xo", "inner": "xi"}
 LEN = {"xc": n, "xg": n, "xo": n + 1, "xi": n - 1, "t": 2}
+# other sizes: a single cell (its inner position has length 0) and an empty untouched dimension
+SIZES = {"std": (3, 2), "one-cell": (1, 2), "empty-t": (3, 0)}
+
+
+def lens(sizes):
+    m, nt = SIZES[sizes]
+    return {"xc": m, "xg": m, "xo": m + 1, "xi": m - 1, "t": nt}
+
 POOL = ["s0", "c1_xc", "c1_xg", "c1_xo", "c1_t", "c2_xc", "c2_xg", "c2_xi", "c2_xo"]
 CASES = [("diff", "center", "left"), ("interp", "center", "outer"), ("max", "outer", "center"), ("min", "center", "inner"),
          ("interp", "left", "center"), ("diff", "inner", "center"),
          ("cumsum", "center", "left"), ("cumsum", "center", "outer"), ("cumsum", "left", "center"), ("cumsum", "outer", "center")]
 
 
-def build(pool, dimcoords):
+def build(pool, dimcoords, sizes="std"):
+    LEN = lens(sizes)
     ds = xr.Dataset()
     for d, l in LEN.items():
         ds["v_" + d] = ((d,), np.zeros(l))
@@ -58,34 +67,51 @@ def build(pool, dimcoords):
             ds = ds.assign_coords({c: ((d,), np.arange(LEN[d]) * 3.0 + 1, {"nm": c})})
         elif c.startswith("c2_"):
             d = c[3:]
-            ds = ds.assign_coords({c: (("t", d), np.arange(2 * LEN[d]).reshape(2, LEN[d]) * 1.0, {"nm": c})})
+            ds = ds.assign_coords({c: (("t", d), np.arange(LEN["t"] * LEN[d]).reshape(LEN["t"], LEN[d]) * 1.0, {"nm": c})})
     return ds
 
 
-def run_case(rec, pool, dimcoords, ci, carry, kc, seed, g=None, ds=None):
+def run_case(rec, pool, dimcoords, ci, carry, kc, seed, g=None, ds=None, sizes="std", after_refused=False):
     from xgcm import Grid
 
     op, fr, to = CASES[ci]
-    case = dict(pool=list(pool), dimcoords=dimcoords, ci=ci, carry=carry, kc=kc)
-    if ds is None:
-        ds = build(pool, dimcoords)
+    case = dict(pool=list(pool), dimcoords=dimcoords, ci=ci, carry=carry, kc=kc, sizes=sizes, after_refused=after_refused)
+    LEN = lens(sizes)
+    if ds is None or after_refused:
+        ds = build(pool, dimcoords, sizes)
         with warnings.catch_warnings():
             warnings.simplefilter("ignore")
             g = Grid(ds, coords={"X": POSDIM}, periodic=False, autoparse_metadata=False)
     din, dout = POSDIM[fr], POSDIM[to]
-    vals = ((np.arange(2 * LEN[din]) * 5 + seed) % 11).astype(float).reshape(2, LEN[din])
+    if LEN[din] == 0:
+        return  # nothing to extend: an empty shifted dimension is legitimately refused under 'extend'
+    bnd = "fill" if sizes == "one-cell" else "extend"  # a single cell leaves nothing to extend from on some paths
+    vals = ((np.arange(LEN["t"] * LEN[din]) * 5 + seed) % 11).astype(float).reshape(LEN["t"], LEN[din])
+    if after_refused:
+        # the first calls this Grid sees are ones whose input does not fit the dataset (another length
+        # along the untouched / the shifted dimension); whatever they do, the valid call that follows is
+        # labelled by the same rule
+        for bad in (xr.DataArray(np.zeros((LEN["t"] + 1, LEN[din])), dims=["t", din], name="foo"),
+                    xr.DataArray(np.zeros((LEN["t"], LEN[din] + 2)), dims=["t", din], name="foo")):
+            try:
+                with warnings.catch_warnings():
+                    warnings.simplefilter("ignore")
+                    getattr(g, op)(bad, "X", to=to, keep_coords=kc, boundary=bnd)
+                rec.counters["misfit-input-accepted"] += 1
+            except Exception:
+                rec.counters["misfit-input-refused"] += 1
     da = xr.DataArray(vals, dims=["t", din], name="foo")
     if carry == "own":
         da = da.assign_coords({c: ds.coords[c] for c in ds.coords if set(ds.coords[c].dims) <= set(da.dims)})
     elif carry == "other":
         # different labels on the input's own dimensions (only to check label independence)
-        da = da.assign_coords({din: (din, np.arange(LEN[din])[::-1] * 10.0 - 3), "t": ("t", [5.0, -5.0])})
-    rec.case((tuple(pool), dimcoords, ci, carry, kc), len(pool) > 0, sample=case)
+        da = da.assign_coords({din: (din, np.arange(LEN[din])[::-1] * 10.0 - 3), "t": ("t", [5.0, -5.0][: LEN["t"]])})
+    rec.case((tuple(pool), dimcoords, ci, carry, kc, sizes, after_refused), len(pool) > 0, sample=case)
     try:
         with warnings.catch_warnings():
             warnings.simplefilter("ignore")
-            r = getattr(g, op)(da, "X", to=to, keep_coords=kc, boundary="extend")
-            base = getattr(g, op)(xr.DataArray(vals, dims=["t", din], name="foo"), "X", to=to, keep_coords=kc, boundary="extend")
+            r = getattr(g, op)(da, "X", to=to, keep_coords=kc, boundary=bnd)
+            base = getattr(g, op)(xr.DataArray(vals, dims=["t", din], name="foo"), "X", to=to, keep_coords=kc, boundary=bnd)
     except Exception as e:
         rec.violation("labels", "raise:" + exc_sig(e), case, "array", f"{type(e).__name__}: {e}"[:200])
         return
@@ -212,6 +238,21 @@ def run_shard(shard, tier, seed, rec):
                         continue
                     for kc in (True, False):
                         run_case(rec, pool, dimcoords, ci, carry, kc, seed, g, ds)
+                # the same call as the first valid one a Grid sees, right after calls it had to refuse
+                run_case(rec, pool, dimcoords, ci, "none", True, seed, after_refused=True)
+                if len(pool) <= 1:
+                    run_case(rec, pool, dimcoords, ci, "own", False, seed, after_refused=True)
+        if len(pool) <= 2:
+            for sizes in ("one-cell", "empty-t"):
+                for dimcoords in (True, False):
+                    ds = build(pool, dimcoords, sizes)
+                    with warnings.catch_warnings():
+                        warnings.simplefilter("ignore")
+                        g = Grid(ds, coords={"X": POSDIM}, periodic=False, autoparse_metadata=False)
+                    for ci in range(len(CASES)):
+                        for carry in ("own", "none"):
+                            for kc in (True, False):
+                                run_case(rec, pool, dimcoords, ci, carry, kc, seed, g, ds, sizes=sizes)
 
 
 def replay_case(case, seed, rec):
@@ -220,4 +261,5 @@ def replay_case(case, seed, rec):
         run_faces(rec, seed)
         rec.viol = [v for v in rec.viol if {k: v["case"].get(k) for k in ("op", "ax", "carry", "kc")} == {k: case.get(k) for k in ("op", "ax", "carry", "kc")}]
         return
-    run_case(rec, tuple(case["pool"]), case["dimcoords"], case["ci"], case["carry"], case["kc"], seed)
+    run_case(rec, tuple(case["pool"]), case["dimcoords"], case["ci"], case["carry"], case["kc"], seed, sizes=case.get("sizes", "std"),
+             after_refused=case.get("after_refused", False))
